@@ -163,6 +163,23 @@ class Lexer:
                 break
             if c == "]" and t.startswith("]]", self.i) and self.i > start and False:
                 break
+            if c == "$" and t.startswith("$'", self.i):
+                # ANSI-C quoting $'...': backslash escapes are interpreted
+                j = self.i + 2
+                buf = ""
+                while j < n and t[j] != "'":
+                    if t[j] == "\\" and j + 1 < n:
+                        buf += {"n": "\n", "t": "\t", "r": "\r", "\\": "\\", "'": "'", '"': '"', "0": "\0", "a": "\a", "e": "\x1b"}.get(t[j + 1], t[j + 1])
+                        j += 2
+                    else:
+                        buf += t[j]
+                        j += 1
+                if j >= n:
+                    self.err("unterminated $'")
+                flush()
+                parts.append(("lit", buf, True))
+                self.i = j + 1
+                continue
             if c == "'":
                 j = t.find("'", self.i + 1)
                 if j < 0:
